@@ -195,16 +195,25 @@ let run_stdin () =
 (* ---------- model-guided random generation ---------- *)
 let pick rng l = List.nth l (Random.State.int rng (List.length l))
 
-let weights = [
-  "clone", 4; "droph", 4; "close", 1; "obs", 9; "send", 10; "sendto", 4; "sendoptto", 4;
-  "trysend", 6; "trysendopt", 3; "trysendrt", 2; "trysendoptrt", 2; "recv", 8; "recvto", 5;
-  "tryrecv", 6; "tryrecvrt", 2; "drain", 3; "mksend", 9; "mkrecv", 9; "mkstream", 3;
-  "poll", 26; "dropf", 6; "streamterm", 2 ]
-let total_w = List.fold_left (fun s (_, w) -> s + w) 0 weights
-let pick_kind rng =
-  let r = ref (Random.State.int rng total_w) in
+(* weight profiles: a history is a sequence of phases, each drawing calls from one profile,
+   so that deep waiting lists (several pending senders / receivers) and their
+   cancellation, draining and termination are common, not lucky *)
+let kinds = [| "clone"; "droph"; "close"; "obs"; "send"; "sendto"; "sendoptto"; "trysend"; "trysendopt";
+  "trysendrt"; "trysendoptrt"; "recv"; "recvto"; "tryrecv"; "tryrecvrt"; "drain"; "mksend"; "mkrecv";
+  "mkstream"; "poll"; "dropf"; "streamterm" |]
+let profiles = [|
+  (* mixed *)        [| 4; 4; 1; 9; 10; 4; 4; 6; 3; 2; 2; 8; 5; 6; 2; 3; 9; 9; 3; 26; 6; 2 |];
+  (* sender pile-up *) [| 1; 0; 0; 2; 6; 3; 3; 3; 2; 1; 1; 0; 0; 0; 0; 0; 30; 0; 0; 40; 3; 0 |];
+  (* receiver pile-up *) [| 1; 0; 0; 2; 0; 0; 0; 0; 0; 0; 0; 2; 3; 1; 0; 0; 0; 25; 6; 40; 3; 1 |];
+  (* consume / cancel *) [| 1; 2; 1; 6; 0; 0; 0; 1; 0; 0; 0; 14; 6; 10; 3; 8; 0; 4; 2; 22; 14; 2 |];
+  (* produce / cancel *) [| 1; 2; 1; 6; 12; 5; 5; 8; 4; 2; 2; 0; 0; 0; 0; 0; 6; 0; 0; 22; 14; 0 |];
+  (* handles / close *) [| 12; 12; 4; 20; 3; 1; 1; 2; 1; 0; 0; 3; 1; 2; 0; 1; 3; 3; 1; 10; 4; 2 |] |]
+let pick_kind rng prof =
+  let w = profiles.(prof) in
+  let total = Array.fold_left (+) 0 w in
+  let r = ref (Random.State.int rng total) in
   let res = ref "obs" in
-  (try List.iter (fun (k, w) -> if !r < w then (res := k; raise Exit) else r := !r - w) weights
+  (try Array.iteri (fun i wi -> if !r < wi then (res := kinds.(i); raise Exit) else r := !r - wi) w
    with Exit -> ());
   !res
 
@@ -223,8 +232,14 @@ let gen_history rng maxlen cap : hl list * out list * aconf =
   let fresh_id () = let i = !next_id in incr next_id; i in
   let fresh_tag () = let i = !next_tag in incr next_tag; i in
   let optv () = if Random.State.int rng 20 = 0 then None else Some (fresh_tag ()) in
+  let prof = ref 0 and phase_left = ref 0 in
   let candidate () : hl option =
-    let k = pick_kind rng in
+    if !phase_left <= 0 then begin
+      prof := (if Random.State.int rng 3 = 0 then 0 else Random.State.int rng (Array.length profiles));
+      phase_left := 3 + Random.State.int rng 10
+    end;
+    decr phase_left;
+    let k = pick_kind rng !prof in
     let need l f = if l = [] then None else Some (f (pick rng l)) in
     match k with
     | "clone" -> need (all_handles ()) (fun h -> HClone (h, fresh_id ()))
